@@ -33,7 +33,7 @@ func TestC04(t *testing.T) {
 		nviol = ev.NumViolations()
 	}
 	_ = nviol
-	ev.Rule = "2 stores (default argon2id / scrypt; users created by add, update, remove+re-add, set-admin, one unsupported and one unreadable hash file) x 16 user names x ~34 presented passwords (every user's password, near misses, ':' JSON-escape, non-BMP, NUL, 255/256/257-byte values) x 5 frontends; reference = store.Dir.Authenticate on the same directory; distinct = distinct (frontend, user, password class, verdict)"
+	ev.Rule = "2 stores (default argon2id / scrypt; users created by add, update, remove+re-add, set-admin, one unsupported and one unreadable hash file) x 35 user names (incl. trailing/leading NUL and LF) x ~90 presented passwords (every user's password, near misses, each with a NUL / LF appended, a NUL prepended and trailing NUL/CR/LF stripped, ':' JSON-escape, non-BMP, NUL, 255/256/257-byte values) x 5 frontends; reference = store.Dir.Authenticate on the same directory; distinct = distinct (frontend, user, password class, verdict)"
 	ev.Assumptions = []string{"LDAP is driven at the bind-handler level (the BER layer of the glauth library is exercised only by the thorough end-to-end part)", "credentials outside a transport's limits (empty fields, SASL fields over 256 bytes, NUL/invalid UTF-8 where the transport cannot carry them) only have to be denied"}
 	ev.Finish()
 }
@@ -50,7 +50,7 @@ func c04store(ev *verifev.Run, root string, def uint) {
 		{"bob", "secret"}, {"colon", "a:b"}, {"colon2", ":"}, {"uni", "pässwörd𝄞"}, {"nul", "pw\x00x"},
 		{"p255", long(255, "x")}, {"p256", long(256, "y")}, {"p257", long(257, "z")},
 		{"esc", "q\"\\/\bé "}, {"sp", " lead and trail "}, {"al@x.org", "alpw"}, {"al", "other"},
-		{"carl", "carl-2"}, {"admin1", "adm"},
+		{"carl", "carl-2"}, {"admin1", "adm"}, {"tnul", "tail\x00"}, {"tlf", "line\n"},
 	}
 	for _, u := range users {
 		must(lib.AddUser(u.name, u.pw, u.name == "admin1"))
@@ -63,7 +63,7 @@ func c04store(ev *verifev.Run, root string, def uint) {
 	// unsupported and unreadable records (internal error => denial on every frontend)
 	must(os.WriteFile(filepath.Join(dir, "dora.user"), []byte("argon2id:1:77:AAAA:AAAA\n"), 0600))
 	must(os.Mkdir(filepath.Join(dir, "edir.user"), 0700))
-	names := []string{"bob", "Bob", "bob ", "BOB", "nob", "bob@realm", "al@x.org", "al", "al@x.org@corp", "bob@a@b", "al@x.org@", "@bob", "bob@", "@", "al@@x.org", "dora", "edir", "colon", "colon2", "uni", "nul", "p255", "p256", "p257", "esc", "sp", "carl", "admin1", ""}
+	names := []string{"bob", "Bob", "bob ", "BOB", "nob", "bob@realm", "al@x.org", "al", "al@x.org@corp", "bob@a@b", "al@x.org@", "@bob", "bob@", "@", "al@@x.org", "dora", "edir", "colon", "colon2", "uni", "nul", "p255", "p256", "p257", "esc", "sp", "carl", "admin1", "", "tnul", "tlf", "bob\x00", "bob\n", "\x00bob", "tnul\x00"}
 	var pws []string
 	seen := map[string]bool{}
 	addpw := func(p string) {
@@ -77,6 +77,11 @@ func c04store(ev *verifev.Run, root string, def uint) {
 		addpw(u.pw + " ")
 		addpw(strings.TrimSpace(u.pw))
 		addpw(strings.ToUpper(u.pw))
+		// bytes a transport might strip or add at either end
+		addpw(u.pw + "\x00")
+		addpw(u.pw + "\n")
+		addpw("\x00" + u.pw)
+		addpw(strings.TrimRight(u.pw, "\x00\r\n"))
 	}
 	addpw("")
 	addpw("carl-1")
